@@ -96,8 +96,9 @@ SYNTAX_EXC_CLASSES = {"python", "unterminated-expr", "unterminated-filter", "unt
                       "unclosed-text-tag", "closing-without-opening", "closing-mismatch", "invalid-control-line",
                       "no-starting-keyword", "keyword-mismatch", "illegal-ternary", "unterminated-control", "deep-nesting"}
 # deep nesting in the default values of args="…" (block / page / call) is not analysed by any identifier visitor; it
-# reaches FunctionDecl.get_argument_expressions' re-emission during code generation
-DEEP_ESCAPES = ("sigargs",)
+# reaches FunctionDecl.get_argument_expressions' re-emission during code generation, which converts the RecursionError
+# itself since /repo ad93474 (before: it escaped bare - labels listed here are predicted to escape)
+DEEP_ESCAPES = ()
 
 # --------------------------------------------------------------------------------------------- the implementation
 
@@ -295,7 +296,7 @@ def check_fields(f, d, expected_filename, path_kind):
             return [("module-compile-error-escapes-as-bare-syntaxerror",
                      "%s: %s (line %s of the generated module)" % (d["cls"], d["msg"][:120], d["lineno"]),
                      {"escaped": d["cls"]})]
-        if f["cls"] == "deep-nesting" and f.get("label") in DEEP_ESCAPES and d["cls"] == "builtins.RecursionError":
+        if f["cls"] == "deep-nesting" and f.get("label") == "sigargs" and d["cls"] == "builtins.RecursionError":
             return [("deep-nesting-in-args-default-escapes-as-bare-recursionerror",
                      "%s: %s" % (d["cls"], d["msg"][:120]), {"escaped": d["cls"]})]
         return [("foreign-exception:" + f["cls"], "%s: %s" % (d["cls"], d["msg"][:200]), {"escaped": d["cls"]})]
